@@ -1130,7 +1130,10 @@ class SessionTransaction(_StateChange, TransactionalContext):
 
             # restore the old key and the object
             s.key = oldkey
-            self.session.identity_map.replace(s)
+            if s.session_id == self.session.hash_key:
+                # an object that was expunged after its primary key switch
+                # gets its old key back but is not put into the identity map
+                self.session.identity_map.replace(s)
 
         for s in set(self._deleted).union(self.session._deleted):
             self.session._update_impl(s, revert_deletion=True)
